@@ -728,10 +728,49 @@ class ClassGen:
         self.classes = all_classes()
         self.bases = {}
 
+    ROLE_METHOD = {'Evaluator': 'evaluate', 'Selector': 'evaluate', 'SeatlessSelector': 'evaluate', 'Distributor': 'evaluate',
+                   'SeatlessDistributor': 'evaluate', 'OpenListEvaluator': 'evaluate', 'Converter': 'convert', 'VoteSubsetter': 'subset',
+                   'RankScorer': 'scores', 'SeatCountCalculator': 'calculate', 'VoteValidator': 'validate', 'Nominator': 'validate',
+                   'VoteTransferer': 'transfer'}
+
+    def role_match(self, c, base):
+        """votelib is duck-typed: most concrete classes do not inherit from the abstract class named in the annotation"""
+        if issubclass(c, base):
+            return True
+        name = base.__name__
+        meth = self.ROLE_METHOD.get(name)
+        if meth is None or not callable(getattr(c, meth, None)):
+            return False
+        if name == 'VoteValidator':
+            return c.__module__ == 'votelib.vote'
+        if name == 'Nominator':
+            return c.__module__ == 'votelib.candidate'
+        if name == 'Converter':
+            return c.__module__ == 'votelib.convert'
+        if name == 'OpenListEvaluator':
+            return c.__module__ == 'votelib.evaluate.openlist'
+        if meth != 'evaluate' or name == 'Evaluator':
+            return True
+        try:
+            ret = typing.get_origin(typing.get_type_hints(c.evaluate).get('return'))
+        except Exception:   # noqa
+            ret = None
+        kind = 'dist' if ret is dict else 'sel' if ret is list else None
+        seated = 'n_seats' in inspect.signature(c.evaluate).parameters
+        if name == 'Selector':
+            return kind in ('sel', None) and seated
+        if name == 'SeatlessSelector':
+            return kind in ('sel', None) and not seated
+        if name == 'Distributor':
+            return kind in ('dist', None) and seated
+        if name == 'SeatlessDistributor':
+            return kind in ('dist', None) and not seated
+        return True
+
     def concrete(self, base):
         if base not in self.bases:
-            self.bases[base] = [c for c in self.classes.values() if isinstance(c, type) and issubclass(c, base)
-                                and not inspect.isabstract(c)]
+            self.bases[base] = [c for c in self.classes.values() if isinstance(c, type) and not inspect.isabstract(c)
+                                and self.role_match(c, base)]
         return self.bases[base]
 
     def number(self):
@@ -807,7 +846,7 @@ class ClassGen:
                 cands = self.concrete(ann)
             if not cands:
                 raise LookupError('no concrete class for %s' % ann)
-            return self.instance(r.choice(cands), depth - 1)
+            return self.instance(r.choice(cands), depth - 1)[0]
         if isinstance(ann, typing.TypeVar) or isinstance(ann, str):
             return r.choice(['N', 'S'])
         return self.number()
@@ -973,7 +1012,8 @@ def check_object(ctx, clsname, obj, kwargs, calls, stream='classes'):
         by = [(m, k, v if k == 'exc' else type(v).__name__) for m, k, v in by]
     if bx != by:
         diff = [(a, b) for a, b in zip(bx, by) if a != b][:2]
-        tag = 'defaultdict' if has_defaultdict(obj) else 'behaviour'
+        lost_default = all(b[1:] == ('exc', 'KeyError') for a, b in zip(bx, by) if a != b)   # the recorded behaviour: KeyError on a missing rank
+        tag = 'defaultdict' if (has_defaultdict(obj) and lost_default) else 'behaviour'
         return dict(case, saved=text[:800], why='the reloaded object behaves differently: %s' % (repr(diff)[:500])), tag
     return None, None
 
@@ -1014,8 +1054,7 @@ def classes_stream(ctx, count_per_class):
     ctx.streams['classes'] = dict(cases=n, deviations=bad, classes=len(gen.classes))
 
 
-KNOWN_TAGS = {'closure': 'C19-closures', 'defaultdict': 'C19-rank-defaultdict', 'blt-hostile-name': 'C19-blt-name-chars',
-              'stv-hostile-name': 'C19-stv-name-chars', 'stv-empty-ranking': 'C19-stv-empty-ranking',
+KNOWN_TAGS = {'closure': 'C19-closures', 'defaultdict': 'C19-rank-defaultdict', 'stv-hostile-name': 'C19-stv-name-chars', 'stv-empty-ranking': 'C19-stv-empty-ranking',
               'stv-decimal-exponent': 'C19-stv-decimal-exponent', 'blt-negative-weight': 'C19-blt-negative-weight'}
 
 
@@ -1174,9 +1213,6 @@ def clean_name(s):
 
 
 def blt_known(c, io, mo):
-    e = c['election']
-    if not all(clean_name(nm) for nm, _ in e['cands']) or not clean_name(e['title']):
-        return 'C19-blt-name-chars'
     return None
 
 
@@ -1529,21 +1565,21 @@ def explore(ctx, widen=1):
     for c in corpus():
         dispatch_case(ctx, c, 'corpus:' + c.get('_file', ''))
     n = ctx.n
-    run_cases(ctx, 'codec', 'codec', codec_cases(ctx.rng, n(1500, 30000) * widen))
-    run_cases(ctx, 'json', 'json', json_cases(ctx.rng, n(700, 12000) * widen))
-    classes_stream(ctx, n(3, 40) * widen)
-    run_cases(ctx, 'blt', 'blt', blt_cases(ctx.rng, n(700, 15000) * widen))
+    run_cases(ctx, 'codec', 'codec', codec_cases(ctx.rng, n(4000, 40000) * widen))
+    run_cases(ctx, 'json', 'json', json_cases(ctx.rng, n(2000, 20000) * widen))
+    classes_stream(ctx, n(8, 60) * widen)
+    run_cases(ctx, 'blt', 'blt', blt_cases(ctx.rng, n(2000, 20000) * widen))
     run_cases(ctx, 'blt-boundary', 'blt', list(blt_cases(ctx.rng, n(60, 600), special='dec-exponent'))
               + list(blt_cases(ctx.rng, n(60, 600), special='zero-weight')) + list(blt_cases(ctx.rng, n(20, 100), special='many'))
               + list(blt_cases(ctx.rng, n(60, 600), special='empty-ranking')))
     run_cases(ctx, 'blt-hostile-names', 'blt', blt_cases(ctx.rng, n(100, 1500), hostile=True))
-    run_cases(ctx, 'blt-tokens', 'blt-tokens', token_cases(ctx.rng, n(1500, 30000) * widen))
-    stv_stream(ctx, n(500, 10000) * widen)
+    run_cases(ctx, 'blt-tokens', 'blt-tokens', token_cases(ctx.rng, n(4000, 40000) * widen))
+    stv_stream(ctx, n(1500, 15000) * widen)
     stv_stream(ctx, n(40, 400), special='many')
     stv_stream(ctx, n(40, 400), special='dec-exponent')
     stv_stream(ctx, n(40, 400), special='empty-ranking')
     stv_stream(ctx, n(60, 800), hostile=True)
-    malformed_stream(ctx, n(3000, 60000) * widen)
+    malformed_stream(ctx, n(8000, 80000) * widen)
     if os.environ.get('C19_DEBUG'):
         _debug(ctx)
 
